@@ -4,7 +4,7 @@ import vf, recvlib
 from recvlib import hexN
 
 IMPORTS = """From Coq Require Import NArith List Bool.
-From Opcua Require Import Model.RecvBase Model.RecvMerge.
+From Opcua Require Import Model.RecvBase Model.RecvMerge Model.RecvChan.
 Import ListNotations. Open Scope N_scope.
 Inductive iout := ID (req : N) (b : bytes) | IDecErr (req : N) | IStatus (req n : N) | ITooMany (req n : N) | ITooLarge (req n : N) | IOther.
 Definition beq (a b : bytes) : bool := if list_eq_dec N.eq_dec a b then true else false.
@@ -24,10 +24,12 @@ Fixpoint all2 {A B} (f : A -> B -> bool) (l1 : list A) (l2 : list B) : bool :=
 Definition ch (t s r : N) (d : bytes) := Build_chunk t s r d.
 Definition pair_eq (a b : N * N) : bool := (fst a =? fst b) && (snd a =? snd b)."""
 
-CTYPE = "N * N * list chunk * list iout * list (N * N) * list bytes"
+CTYPE = "N * N * list chunk * list iout * list (N * N) * list bytes * N"
 
-AGREE = """  let '(mc, ms, cs, outs, tab, origs) := c in
-  let '(t, os) := recv_all mc ms [] cs in
+AGREE = """  let '(mc, ms, cs, outs, tab, origs, nrej) := c in
+  let fs := seq_filter cs in
+  let '(t, os) := recv_all mc ms [] fs in
+  (nlen cs - nlen fs =? nrej) &&
   all2 (out_agree origs) os outs && all2 pair_eq (map (fun kv => (fst kv, nlen (snd kv))) t) tab"""
 
 
@@ -48,10 +50,11 @@ def iout(o):
 
 def term(c):
     chunks = ";".join("ch %d %d %d %s" % (x["t"], x["seq"], x["req"], hexN(x["data"])) for x in c["chunks"])
-    outs = ";".join(iout(o) for o in (c["outs"] or []))
+    outs = ";".join(iout(o) for o in (c["outs"] or []) if o["k"] != "badseq")
+    nrej = sum(1 for o in (c["outs"] or []) if o["k"] == "badseq")
     tab = ";".join("(%d,%d)" % (a, b) for a, b in (c["table"] or []))
     origs = ";".join(hexN(h) for h in c["originals"])
-    return "(%d, %d, [%s], [%s], [%s], [%s])" % (c["mc"], c["ms"], chunks, outs, tab, origs)
+    return "(%d, %d, [%s], [%s], [%s], [%s], %d)" % (c["mc"], c["ms"], chunks, outs, tab, origs, nrej)
 
 
 def proj(outs):
